@@ -15,6 +15,7 @@ mod sched;
 mod explore;
 mod checks;
 mod c30;
+mod conformance;
 
 fn main() {
     let args = engine::parse_args();
@@ -41,6 +42,8 @@ fn main() {
             println!("{}", serde_json::to_string_pretty(&obs).unwrap());
             0
         }
+        "dump-mirror-traces" => conformance::dump(&args),
+        "mirror-selftest" => conformance::selftest(),
         "C27" | "C28" | "C29" => checks::run(&args),
         "C30" => c30::run(&args),
         other => engine::machinery_failure(&format!("raft_checks: unknown property {other}")),
